@@ -5,7 +5,8 @@ model-independent oracles (from-scratch recomputation, cause tracker, idle consi
 Case = (prog ops).
   node : (0 flavour init)            signal; flavour 0 ArcRwSignal, 1 signal() pair, 2 RwSignal,
                                      3 ArcTrigger-backed cell, 4 arc_signal() pair
-         (1 cmp flavour expr)        memo; cmp 0 PartialEq / 1 always-changed; flavour 0 ArcMemo / 1 Memo
+         (1 cmp flavour expr)        memo; cmp 0 PartialEq / 1 always-changed / 2 new_with_compare(parity differs): coarser
+                                     than equality; flavour 0 ArcMemo / 1 Memo
          (2 flavour expr)            derived; flavour 0 closure / 1 Signal::derive / 2 ArcSignal::derive;
                                      wrappers (expr is (1 j): wrap node j, or (0 z): stored constant):
                                      3 Signal::from / Signal::stored, 4 ArcSignal::from / ArcSignal::stored,
@@ -261,7 +262,7 @@ def gen_expr(rng, readable, depth, p_untr=0.12, sigs=None):
 
 
 def gen_program(rng, n, n_eff=0, p_untr=0.12, p_der=0.15, p_always=0.12, eff_kinds=(0, 0, 1, 2, 3, 4),
-                allow_wr=True, extra_sigs=True, p_wrap=0.45):
+                allow_wr=True, extra_sigs=True, p_wrap=0.45, p_coarse=0.15):
     """n nodes: signals first (plus a few later ones), memos / derived, n_eff effects spread over the tail"""
     nsig = max(1, min(rng.randint(1, 3), n - n_eff - 1))
     n = max(n, nsig + n_eff)
@@ -295,7 +296,8 @@ def gen_program(rng, n, n_eff=0, p_untr=0.12, p_der=0.15, p_always=0.12, eff_kin
         if k == SIG:
             prog.append([0, rng.choice([0, 0, 1, 1, 2, 3, 4]), rng.randint(0, 3)])
         elif k == MEMO:
-            prog.append([1, 1 if rng.random() < p_always else 0, rng.randint(0, 1),
+            r = rng.random()
+            prog.append([1, 1 if r < p_always else (2 if r < p_always + p_coarse else 0), rng.randint(0, 1),
                          gen_expr(rng, readable, rng.choice([1, 2, 2, 3]), p_untr, sigs)])
         elif k == DER:
             nd = None
@@ -386,6 +388,14 @@ def gen_ops(rng, prog, n_ops, w=(0.34, 0.05, 0.36, 0.10, 0.10, 0.05), vals=(0, 1
     return ops
 
 
+def same_for_subscribers(nd, a, b):
+    """do the subscribers of node nd get told about a change from value a to value b?  Equality, except
+    for a memo whose comparator is coarser (cmp 2: only a change of parity is a change)"""
+    if nd[0] == MEMO and nd[1] == 2:
+        return a % 2 == b % 2
+    return a == b
+
+
 # ----------------------------------------------------------------------------- trace walker
 class Malformed(Exception):
     pass
@@ -460,7 +470,7 @@ class Walker:
         changed = None
         if nd[0] == MEMO:
             old = self.endval.get(i)
-            changed = True if nd[1] == 1 else (old is None or old != v)
+            changed = True if nd[1] == 1 else (old is None or not same_for_subscribers(nd, old, v))
             self.endval[i] = v
         self.hooks.end(self, i, v, handler, changed)
 
@@ -585,7 +595,17 @@ class Truth:
             v = w.sig[j]
         elif nd[0] == MEMO:
             log = list(w.lastlog.get(j, []))
-            st = {"log": log, "p": 0, "ok": True}
+            # is every tracked entry of the last run still current, as far as its source tells its
+            # subscribers?  Then nothing obliges j to run again and its value is the one of that run
+            # (a source memo with a coarse comparator may have moved inside one class)
+            fresh = bool(w.runs.get(j))
+            for (x, vx, t) in log:
+                if t and w.prog[x][0] != DER:
+                    cx = self.of(x)
+                    if cx is None or not same_for_subscribers(w.prog[x], cx, vx):
+                        fresh = False
+                        break
+            st = {"log": log, "p": 0, "ok": True, "fresh": fresh}
             v = self.ev(nd[3], False, st)
             if not st["ok"]:
                 v = None
@@ -626,7 +646,11 @@ class Truth:
             return v
         ent = self.next(st, j, tracked)
         if tracked:
-            return self.of(j)
+            cur = self.of(j)
+            if (st is not None and st.get("fresh") and ent is not None and nd[0] == MEMO and nd[1] == 2
+                    and cur is not None and same_for_subscribers(nd, cur, ent[1])):
+                return ent[1]      # the last run's value of a coarse memo that reported no change since
+            return cur
         # untracked: the value the last run saw at this position
         if ent is None:
             st["ok"] = False
@@ -860,7 +884,7 @@ class C02Hooks(Hooks):
                 if not t or w.prog[j][0] == DER:
                     continue
                 want = self.truth.of(j)
-                if want is not None and want != v:
+                if want is not None and not same_for_subscribers(w.prog[j], want, v):
                     stale = (j, v, want)
                     break
             if stale:
@@ -923,7 +947,8 @@ def describe(item):
             if nd[0] == SIG:
                 out.append("n%d = %s(%d)" % (i, sf[nd[1] % 5], nd[2]))
             elif nd[0] == MEMO:
-                out.append("n%d = %s%s(%s)" % (i, ["ArcMemo", "Memo"][nd[2] % 2], "[always changed]" if nd[1] else "", show_expr(nd[3])))
+                out.append("n%d = %s%s(%s)" % (i, ["ArcMemo", "Memo"][nd[2] % 2],
+                                               ["", "[always changed]", "[changed iff parity differs]"][nd[1] % 3], show_expr(nd[3])))
             elif nd[0] == DER:
                 wn = ["closure", "Signal::derive", "ArcSignal::derive", "Signal::from", "ArcSignal::from", "MappedSignal", "MaybeSignal::from"]
                 out.append("n%d = %s(%s)" % (i, wn[nd[1]] if 0 <= nd[1] < len(wn) else "derived", show_expr(nd[2])))
